@@ -221,12 +221,16 @@ def _fuzz(name, srcs, prop, secs, jobs, agg, max_len=2048, extra=None, timeout_s
             else:  # timeout / oom / slow-unit: only if it reproduces 3x alone
                 if a.startswith('slow-unit'):
                     continue
+                if stats.get('confirmed_hang_or_oom_artifacts', 0) >= 2:   # a hang costs minutes to confirm: two confirmed ones settle it
+                    stats['further_hang_or_oom_artifacts_not_rechecked'] = stats.get('further_hang_or_oom_artifacts_not_rechecked', 0) + 1
+                    continue
                 ok = 0
                 for _ in range(3):
                     r = subprocess.run([b, '-timeout=%d' % (timeout_s * 3), '-rss_limit_mb=3000', '-malloc_limit_mb=1024', pth], stdout=subprocess.PIPE, stderr=subprocess.PIPE, env=env)
                     if r.returncode != 0:
                         ok += 1
                 if ok == 3:
+                    stats['confirmed_hang_or_oom_artifacts'] = stats.get('confirmed_hang_or_oom_artifacts', 0) + 1
                     record(pth, 'campaign (%s reproduced 3x)' % a.split('-')[0])
                 else:
                     stats['load_noise_artifacts'] = stats.get('load_noise_artifacts', 0) + 1
